@@ -674,7 +674,7 @@ class BuiltinsMixin:
             except IndexError:
                 raise RaiseSig(SExc(exc_class("IndexError")), self.lineno)
             return
-        if isinstance(obj, SDict) and isinstance(idx, (str, int, bytes, tuple)):
+        if isinstance(obj, SDict) and (idx is None or isinstance(idx, (str, int, bytes, tuple))):
             obj.items[idx] = v
             return
         if isinstance(obj, SMap):
